@@ -297,6 +297,9 @@ static std::string pre_fields(const std::vector<std::string>& f)
     e += "]";
     e += ",\"di\":" + (di.empty() ? std::string("0") : std::to_string(atoi(di.c_str())));
     e += std::string(",\"ni\":") + (di.empty() ? "0" : "1");
+    std::string pair;
+    for (size_t q = k; q < f.size(); ++q) if (f[q].compare(0, 5, "pair:") == 0) pair = f[q].substr(5);
+    e += ",\"pair\":" + jstr(pair);
     e += ",\"cb\":" + (cb.empty() ? std::string("[]") : cb);
   }
   return e;
@@ -393,7 +396,8 @@ static void do_call(const std::vector<std::string>& f, bool capi)
     g_cb_args.clear();
     Scalar r = 0; bool found = false;
     if (capi) {
-      const std::string& cname = f.size() > k ? f[k] : std::string();
+      std::string cname;
+      for (size_t q = k; q < f.size(); ++q) if (f[q].compare(0, 5, "pair:") != 0) { cname = f[q]; break; }
       for (int i = 0; i < c_table_n; ++i)
         if (fn == c_table[i].fn && sig == c_table[i].sig && (cname.empty() || cname == c_table[i].cname)) { r = Scalar(c_table[i].call(a)); found = true; break; }
     } else {
